@@ -573,6 +573,7 @@ def run(ctx):
         "ValidationContext::validate and module validators aggregate with combine_error_results; the code literal of each check_eNNNN equals its name "
         "and the set of codes in the code equals the set of documented headings; no Result in validation is dropped.")
     ctx.explanation += ' Two confirmed guard rows (P2): create_approx_matrices only behind the false edge of has_indices; get_time_window_from_vec yields a window only on the len == 2 edge.'
+    ctx.explanation += ' The error aggregator walks all results of a rule group (V5: no short-circuiting adapter, no collect into a Result).'
     ctx.not_decided = ("that each rule's predicate matches its documentation (e.g. any/all slips), exactness of codes == violated rules; panics that are reached through "
                        "constructors' assertions, generated ids or collection mutation (Fleet::new, MultiDimLoad::new, job index lookups) — P1 is narrow.")
     ctx.assumptions += ["docs headings `### E....`/`#### E....` are the documented rule table"]
